@@ -7,7 +7,7 @@ add("C07", "checks/c07_roundtrip.c", ["default-plain", "default-asan", "dtostre-
     "types; distinct_nontrivial = distinct non-empty values (hash of the value; integer sweeps count one per 2^16/2^8 block and 1/8 of the 64-bit "
     "values, i.e. a lower bound)",
     exhaustive=dict(quick=False, thorough=False),
-    rule_more="sparse-decimal, decimal+binary-round and word-structured 64-bit values; powers of two; arrays of 32767..70000 items; full-range floating-point arrays; texts of 1000..100000 characters on a 96 KiB task stack; flavours c89, c99, os, c89os, optall",
+    rule_more="sparse-decimal, decimal+binary-round and word-structured 64-bit values; powers of two; arrays of 32767..70000 items; full-range floating-point arrays; texts of 1000..100000 characters on a 96 KiB task stack; flavours c89, c99, os, c89os, optall; read-back lines ended by LF or by a flush call (also behind an empty line)",
     technique="round-trip differential monitor at the client boundary (format -> capture -> re-submit -> decode) under ASan+UBSan and in a fast uninstrumented build",
     level_text="exploration by execution: exhaustive for 8/16-bit integers and short strings in both tiers and for all 2^32 32-bit values in thorough; sampled for 64-bit integers, long strings, blocks and floating point",
     level_note="trusted: equality of the decoded value as oracle; for float/double the bound is half a unit of the 6th/15th significant digit plus one ulp for the reader's own rounding (the subtraction of the two close doubles is exact)",
